@@ -263,6 +263,14 @@ def identity_shard(kind: str, seed: int, examples: int, known: list[str]) -> dic
             grp2 = t_many.parallelize([{"b": b}, {"b": b}], common_args={"a": a})
             for gi in grp2.invocations:
                 rep.check(gi.call.call_id == ref, f"identity:{kind}:common-args-defaults", "parallelize(..., common_args) call with defaults omitted has another call id than the fully spelled call")
+        # a per-call value that repeats a common key overrides it - also when it only differs in type (1 vs 1.0, 0 vs False)
+        for common_v, call_v in ((1, 1.0), (0, False), (1, True), (2.0, 2)):
+            grp3 = t_many.parallelize([{"a": call_v, "b": b}, {"b": b}], common_args={"a": common_v, "c": c, "d": d})
+            want = [Call(t_many, t_many.args(call_v, b, c, d)), Call(t_many, t_many.args(common_v, b, c, d))]
+            for gi, w in zip(grp3.invocations, want):
+                rep.check(gi.call.call_id == w.call_id, f"identity:{kind}:common-args-override-id", f"parallelize([{{a: {call_v!r}}}], common_args={{a: {common_v!r}}}) has another call id than the direct call")
+                rep.check(gi.call.serialized_arguments == w.serialized_arguments, f"identity:{kind}:common-args-override-serialized",
+                          f"parallelize([{{a: {call_v!r}}}], common_args={{a: {common_v!r}}}) serialises a={gi.call.serialized_arguments.get('a')!r}, the direct call a={w.serialized_arguments.get('a')!r}")
         # changed pair: identity equal <=> serialized arguments equal
         vals = {"a": a, "b": b, "c": c, "d": d}
         vals2 = dict(vals)
